@@ -5,11 +5,11 @@ from common import ENV, VERIF, REPO, BUILD, sh
 READY = True
 
 META = {
-    "technique": "Lean 4 proof (inductive invariants over all reachable states of a lock-granularity transition system of AutoReloader/Notifier, any number of threads) + schedules enumerated from the model and replayed on the real AutoReloader with a deterministic scheduler over real threads (verif_hooks yield points) + mutual-exclusion pokes at every yield point + the real watch-fs backend driven through scenarios and model-predicted operation sequences",
+    "technique": "Lean 4 proof (inductive invariants over all reachable states of a lock-granularity transition system of AutoReloader/Notifier, any number of threads) + schedules enumerated from the model and replayed on the real AutoReloader with a deterministic scheduler over real threads (verif_hooks yield points) + mutual-exclusion pokes at every yield point + the real watch-fs backend driven through scenarios and model-predicted operation sequences + a differential stream over the template store that fast reload clears (real Environment API vs. the Lean model of LoaderStore, with the fast-reload half of the property as an oracle) + a differential stream over the reloader's lifetime and two reloaders (Lean lifetime/product model) + tables regenerated from loader.rs / environment.rs / lib.rs (store fields and their uses, notifier handle constructions)",
     "category": "proof",
-    "text": "Kernel-checked theorems over every reachable state of the reloader protocol model (any number of acquiring, requesting and fast-reload-switching threads, any interleaving of the atomic steps, creator callbacks that issue requests / switch fast reload / fail / panic, freshness callback): a request that returned before an acquire locked is served by the environment that acquire hands out (creator started or templates cleared after the flag was set); no step replaces, rebuilds or clears the environment while a guard is held; every creator call or clear is caused by its own observation; a request is served AT MOST ONCE (request_served_at_most_once: flag observations + the one still owed <= flag RAISES + failed creator calls, a burst of requests between two checks is one raise; reloads_le_requests); every reload decision is taken UNDER the cached_env lock and no other acquire locks between an acquire's lock and its decision (check_under_lock, observation_only_by_holder) - and the variant model that checks before it locks (seeded change C20-6) loses a returned request and calls the creator twice for one request, with concrete schedules (variant_loses_request, variant_spurious_create, variant_decides_without_lock); a request arriving while the creator runs keeps the flag up and the next acquire rebuilds. The model is tied to /repo by replaying model-enumerated schedules (all interleavings at the hook points for the small boxes, eager-return-reduced or sampled for 3x3) on the real code and comparing the whole observation (arrival point of every step, generation and loader-call number seen through every guard, creator calls with their step), plus the property itself evaluated on the observed history.",
+    "text": "Kernel-checked theorems over every reachable state of the reloader protocol model (any number of acquiring, requesting and fast-reload-switching threads, any interleaving of the atomic steps, creator callbacks that issue requests / switch fast reload / fail / panic, freshness callback): a request that returned before an acquire locked is served by the environment that acquire hands out (creator started or templates cleared after the flag was set); no step replaces, rebuilds or clears the environment while a guard is held; every creator call or clear is caused by its own observation; a request is served AT MOST ONCE (request_served_at_most_once: flag observations + the one still owed <= flag RAISES + failed creator calls, a burst of requests between two checks is one raise; reloads_le_requests); every reload decision is taken UNDER the cached_env lock and no other acquire locks between an acquire's lock and its decision (check_under_lock, observation_only_by_holder) - and the variant model that checks before it locks (seeded change C20-6) loses a returned request and calls the creator twice for one request, with concrete schedules (variant_loses_request, variant_spurious_create, variant_decides_without_lock); a request arriving while the creator runs keeps the flag up and the next acquire rebuilds. The model is tied to /repo by replaying model-enumerated schedules (all interleavings at the hook points for the small boxes, eager-return-reduced or sampled for 3x3) on the real code and comparing the whole observation (arrival point of every step, generation and loader-call number seen through every guard, creator calls with their step), plus the property itself evaluated on the observed history.  Session 4: the property is stated per state (C20_at) and at full strength (C20_full), and C20_main proves it for ANY system that refines the model, with the refinement (validated by replay) and the source ties (discharged by theorems over regenerated tables: SourceTies / source_ties_hold) as named hypotheses; 'whose template cache was cleared' is given its meaning by a model of LoaderStore (all stores, names, loader answers, compilers: after clear every lookup consults the loader and answers what it says now; without the clear the memo answers for ever; a failed lookup memoises nothing) tied to the regenerated field list of the Rust struct (clear_empties_every_lookup_cache: every container field is cleared); the window without a watcher is characterised (registering_creator_leaves_no_silent_window); notifier handles that outlive the reloader, the drop, and several reloaders are transition systems with theorems (dead_notifier_does_nothing, drop_excludes_acquire, several_reloaders_independent, one_strong_handle_per_reloader over the regenerated handle constructions); watch_path from several threads is a lock-granularity model of with_fs_watcher (concurrent_watch_paths_share_one_watcher, registration_lost_only_by_reload).",
     "design_ref": "DESIGN.md §3 C20",
-    "level_note": "Trusted: Lean kernel; hand transcription of acquire_env/request_reload/should_reload/prepare_and_mark_reload/keep_reload_pending/set_fast_reload/set_callback into MJ/Model/Reloader.lean, tied four ways: (a) the per-function sequence of shared accesses (locks incl. the fs watcher's own mutex, flag/fast/callback reads and writes, creator, clear, hand-out) is re-extracted from lib.rs on every run and proved equal to the sequence the model's steps assume (MJ.C20.accesses_as_modelled; regex extractor lib/tables/c20.py is trusted), so a new access anywhere breaks the tie even where no hook sits; (b) schedule replay at hook granularity: every notifier-lock acquisition of acquire_env is preceded by a yield point, incl. the re-arm after a failed creator (BeforeRemark = the notifier look-up of keep_reload_pending) and the window between the fast-reload clear and the hand-out (AfterClear); configurations with a freshness + on_should_reload callback registered (f0/f1) and with NO callback registered (g0/g1: the None arms); (c) MUTUAL EXCLUSION is probed, not assumed: for every yield point of acquire_env (Q K Z B S T C E F H) x {full, fast, no callbacks} x {creator ok, fails, panics} a second acquirer that the model says is blocked is released from BeforeLock while the holder stands still and must not arrive anywhere (bounded wait; 'blocked' is what the unchanged code always gives), so a cached_env lock that is dropped early (before the re-arm, around the creator) is a failing input; contention on the NOTIFIER mutex (user callbacks run under it): a request_reload / a file event issued while the freshness callback holds the mutex must be served by the next acquire; (d) the property evaluated on the observed history. The fs-watcher closure is proved to perform request_reload's critical sections (fs_callback_is_request); its event filter (the matches! pattern) is re-extracted on every run, evaluated on every concrete EventKind of the vendored notify-types crate and proved to accept every kind that denotes a change of file content or of the set of files, for every RenameMode, and to reject access/metadata events; in both tiers a scratch crate with the real watch-fs feature drives real file changes (write, nested write, create, delete, rename inside / out of / into the tree, directory rename, directory moved out, atomic save, move of the watched root; touch reported only) x {full, fast, persistent}, TWO registered paths, non-recursive registration, unwatch of one of two paths, bursts (several events for one save, the next change right after the acquire), registration calls while events keep flowing (watchdog: a scenario that does not end is a finding), and requires a notification and an environment that reflects the disk at the next acquire (skipped, and said so, if the sandbox delivers no inotify events). The watcher's LIFETIME is modelled (watching / persistent / registered; prepare drops it per dropWatcher, creator or an outside thread re-registers): the drop condition's truth table is re-extracted and proved equal to the model's, watcher_alive_whenever_needed holds in every reachable state, and seeded random OPERATION SEQUENCES (persistent_watch and fast reload toggled at run time, watch_path from the creator or from outside, requests, single-event file changes) are run on the real backend with the model's prediction for every change: a change the model says is watched must be notified and served (a notification the model does not expect is only reported: a dropped notify watcher shuts down asynchronously). Genuine defects found and repaired: fix 5725511 (fast-reload decision taken once) and fix e3d615c (watch_path / unwatch_path held the notifier mutex across the call into notify, whose thread takes that mutex in the event callback: registering while events were delivered deadlocked; the watcher now has its own mutex). A PANICKING creator is a third creator outcome in model, replay and oracle (panic_never_serves_stale). No verdict depends on wall-clock timing: every wait that decides one is a bounded wait for an event that must arrive, or (pokes, quiet windows) a wait whose expiry is the expected outcome on the unchanged code. Not covered: in full-reload mode without persistent_watch the fs watcher is dropped before the creator runs and only exists again once the creator calls watch_path, so file changes in that window produce no notification at all (the creator must register before it reads); callbacks that call back into the same notifier from under its mutex (deadlock by construction of std::sync::Mutex) are not exercised.",
+    "level_note": "Trusted: Lean kernel; hand transcription of acquire_env/request_reload/should_reload/prepare_and_mark_reload/keep_reload_pending/set_fast_reload/set_callback into MJ/Model/Reloader.lean, tied four ways: (a) the per-function sequence of shared accesses (locks incl. the fs watcher's own mutex, flag/fast/callback reads and writes, creator, clear, hand-out) is re-extracted from lib.rs on every run and proved equal to the sequence the model's steps assume (MJ.C20.accesses_as_modelled; regex extractor lib/tables/c20.py is trusted), so a new access anywhere breaks the tie even where no hook sits; (b) schedule replay at hook granularity: every notifier-lock acquisition of acquire_env is preceded by a yield point, incl. the re-arm after a failed creator (BeforeRemark = the notifier look-up of keep_reload_pending) and the window between the fast-reload clear and the hand-out (AfterClear); configurations with a freshness + on_should_reload callback registered (f0/f1) and with NO callback registered (g0/g1: the None arms); (c) MUTUAL EXCLUSION is probed, not assumed: for every yield point of acquire_env (Q K Z B S T C E F H) x {full, fast, no callbacks} x {creator ok, fails, panics} a second acquirer that the model says is blocked is released from BeforeLock while the holder stands still and must not arrive anywhere (bounded wait; 'blocked' is what the unchanged code always gives), so a cached_env lock that is dropped early (before the re-arm, around the creator) is a failing input; contention on the NOTIFIER mutex (user callbacks run under it): a request_reload / a file event issued while the freshness callback holds the mutex must be served by the next acquire; (d) the property evaluated on the observed history. The fs-watcher closure is proved to perform request_reload's critical sections (fs_callback_is_request); its event filter (the matches! pattern) is re-extracted on every run, evaluated on every concrete EventKind of the vendored notify-types crate and proved to accept every kind that denotes a change of file content or of the set of files, for every RenameMode, and to reject access/metadata events; in both tiers a scratch crate with the real watch-fs feature drives real file changes (write, nested write, create, delete, rename inside / out of / into the tree, directory rename, directory moved out, atomic save, move of the watched root; touch reported only) x {full, fast, persistent}, TWO registered paths, non-recursive registration, unwatch of one of two paths, bursts (several events for one save, the next change right after the acquire), registration calls while events keep flowing (watchdog: a scenario that does not end is a finding), and requires a notification and an environment that reflects the disk at the next acquire (skipped, and said so, if the sandbox delivers no inotify events). The watcher's LIFETIME is modelled (watching / persistent / registered; prepare drops it per dropWatcher, creator or an outside thread re-registers): the drop condition's truth table is re-extracted and proved equal to the model's, watcher_alive_whenever_needed holds in every reachable state, and seeded random OPERATION SEQUENCES (persistent_watch and fast reload toggled at run time, watch_path from the creator or from outside, requests, single-event file changes) are run on the real backend with the model's prediction for every change: a change the model says is watched must be notified and served (a notification the model does not expect is only reported: a dropped notify watcher shuts down asynchronously). Genuine defects found and repaired: fix 5725511 (fast-reload decision taken once) and fix e3d615c (watch_path / unwatch_path held the notifier mutex across the call into notify, whose thread takes that mutex in the event callback: registering while events were delivered deadlocked; the watcher now has its own mutex). A PANICKING creator is a third creator outcome in model, replay and oracle (panic_never_serves_stale). No verdict depends on wall-clock timing: every wait that decides one is a bounded wait for an event that must arrive, or (pokes, quiet windows) a wait whose expiry is the expected outcome on the unchanged code. Not covered: in full-reload mode without persistent_watch the fs watcher is dropped before the creator runs and only exists again once the creator calls watch_path, so file changes in that window produce no notification at all (the creator must register before it reads); callbacks that call back into the same notifier from under its mutex (deadlock by construction of std::sync::Mutex) are not exercised. MOVED FROM VALIDATED TO PROVED in session 4 (the session-3 worker was interrupted; this is its list, redone): (1) fast reload's clear: `Environment::clear_templates` / `LoaderStore::{clear,get,insert_cow,remove,set_loader}` are INSIDE the model (MJ/Model/LoaderStore.lean; loader answer and compiler are parameters), theorems for all inputs (cleared_env_consults_loader, uncleared_env_serves_memo, failed_lookup_not_cached), tie = regenerated table C20_LOADER_STORE (struct fields + every use of a field through self per method + the body of clear_templates + the type of Environment.templates): clear_empties_every_lookup_cache fails when a container field is added that clear() does not empty (seeded C20-7's class) or when clear_templates does anything but templates.clear(); executed against the real code by the `store` stream (directed product: state of the name before x what was done with it x what the loader says afterwards x with/without clear x get_template / include candidate list, plus seeded random op sequences over set_loader, add_template, add_template_owned, remove_template, clear_templates, get_template, include [a, b] ignore missing, loader answers found / missing / error / syntax error) with an oracle that demands, after a clear, that the first lookup of every name consults the loader and answers what it says now - this also reaches caches OUTSIDE the store (e.g. in Environment::get_template), which the table cannot see; (2) the not-covered window: registering_creator_leaves_no_silent_window proves that with a creator that registers, the watcher is missing only while the dropping acquire holds the cached_env lock between its flag reset and its creator's watch_path call, and that it is alive whenever an environment can be looked at (nobody inside / guard held); NOT promised and said so by reachable-state examples: a creator that never registers (paths registered once from outside) is silent after the first full reload, a file change inside the window produces no notification (it is read by whatever the new environment loads afterwards), and a watch_path from outside that races with a full reload can register on the watcher the reload just threw away (registration_lost_only_by_reload is exactly that exception); (3) notifier handles that outlive the reloader and the drop itself are a transition system (MJ/Model/ReloaderLife.lean: alive bit, drop enabled only with no acquire in progress, dead entry points do nothing, a request_reload that upgraded before the drop finishes) with alive_reloader_is_protocol, dead_notifier_does_nothing, drop_excludes_acquire (incl.: whoever is inside acquire_env has a live notifier, so prepare_and_mark_reload's expect cannot fire); tie = regenerated table C20_HANDLE_SITES (every construction of a Strong / Weak handle, every Notifier::new call, what notifier() returns) with one_strong_handle_per_reloader; executed by the `life` stream (two real reloaders, requests through the outside handle and through the clone the creator kept, set_fast_reload / set_callback, drop, is_dead; the oracle demands a new generation iff a request was made on THAT reloader since its last acquire); (4) 'more than one AutoReloader sharing a Notifier' cannot be built through the API (the strong handle is made by the private Notifier::new, called only by AutoReloader::new: proved from the table), so several reloaders are the product system: several_reloaders_independent; (5) watch_path from several threads: MJ/Model/WatcherReg.lean (look-up-or-create under the notifier mutex, registration under the watcher's own mutex, reloads that take the watcher out; any number of threads) with concurrent_watch_paths_share_one_watcher; executed by the new watch-fs scenario concurrent-registrations-* (4 threads released by a barrier register 4 paths on a fresh reloader, every path must be watched afterwards; several rounds).  STILL ONLY VALIDATED: H_start / H_refines of C20_main (the Rust functions refine the model's steps: schedule replay, pokes, probes, plus the access-table tie); that the real MemoMap / BTreeMap behave as the association lists of the LoaderStore model and that Template / include go through LoaderStore::get (store stream); the notify backend itself. TRUSTED: the regex extractors of lib/tables/c20.py.",
 }
 
 NPROC = 8
@@ -390,17 +390,182 @@ def wfs_finish(r, ctx):
     r.extra["watch_fs_sequences"] = ctx["n_seq"]
 
 
+def store_oracle(ops, obs):
+    """the fast-reload half of the property on the template store, independent of the Lean model: after
+    clear_templates() (with a loader set) the FIRST lookup of every name - by get_template or as an include
+    candidate - must consult the loader and answer what the loader says at that moment, whatever was added,
+    loaded, removed or looked up in vain before the clear.  Returns a list of failure texts."""
+    fails = []
+    disk, loader, fresh = {}, False, None     # fresh = names not touched since the last clear (None: no clear yet)
+    res = iter(obs.split(","))
+    def want(n):
+        v = disk.get(n, "-")
+        return {"-": "nf", "!": "le", "x": "se"}.get(v, f"t{n}#{v}")
+    for op in ops.split(","):
+        k = op[0]
+        if k == "L":
+            loader = True
+        elif k == "D":
+            disk[op[1]] = op[2]
+        elif k == "C":
+            fresh = {"a", "b", "c"}
+        elif k in "BO":
+            got = next(res, "?")
+            if fresh is not None:
+                fresh.discard(op[1])
+        elif k == "R":
+            pass                                  # removing leaves a name that has to be looked up afresh
+        elif k in "GE":
+            got = next(res, "?")
+            n = op[1]
+            if fresh is not None and n in fresh and loader:
+                if got != want(n) + "+":
+                    fails.append(f"{'get_template' if k == 'G' else 'extends '}({n!r}) after clear_templates() answered {got!r}; the loader says {want(n)!r} now and must be consulted (expected {want(n) + '+'!r})")
+            if fresh is not None:
+                fresh.discard(n)
+        elif k == "I":
+            got = next(res, "?")
+            if fresh is not None and loader:
+                exp, calls, known = "none", 0, True
+                for n in op[1:3]:
+                    if n not in fresh:
+                        known = False
+                        break
+                    calls += 1
+                    w = want(n)
+                    fresh.discard(n)
+                    if w != "nf":
+                        exp = w
+                        break
+                if known and got != f"{exp}+{calls}":
+                    fails.append(f"include [{op[1]!r}, {op[2]!r}] after clear_templates() gave {got!r}; with the loader's present answers it must give {exp}+{calls}")
+            if fresh is not None:
+                for n in op[1:3]:
+                    fresh.discard(n)
+    return fails
+
+
+def run_store(r, exe):
+    """differential stream + oracle for the template store behind fast reload"""
+    rc, out, err = r.harness(exe, ["store", r.tier])
+    if rc != 0 or not out.strip():
+        r.broken.append(f"harness c20 store exited {rc}: {err[-300:]}")
+        return
+    real = []
+    for line in out.splitlines():
+        f = line.split("\t")
+        if len(f) == 3 and f[0] == "store":
+            real.append((f[1], f[2]))
+    model = r.driver("drive_c20", "".join(f"store {ops}\n" for ops, _ in real))
+    pred = {}
+    for line in model or []:
+        f = line.split("\t")
+        if len(f) == 3 and f[0] == "store":
+            pred[f[1]] = f[2]
+    for ops, obs in real:
+        case = "store " + ops
+        obligations = ("C" in ops.split(",")) and ("L" in ops.split(","))
+        r.count(case, obligations)
+        r.hist["store"]["with-clear" if obligations else "without-clear-or-loader"] += 1
+        if ops not in pred:
+            r.broken.append(f"no model prediction for {case}")
+        elif pred[ops] != obs:
+            r.model_disagreement(case, obs, pred[ops])
+        if obs.startswith("panic:"):
+            r.oracle_failure(case, "panic in the real code: " + obs, "store:panic")
+            continue
+        for what in store_oracle(ops, obs):
+            r.oracle_failure(case, what, "fast-reload:clear:stale-lookup")
+    r.extra["store_sequences"] = len(real)
+
+
+def life_oracle(ops, obs):
+    """the property over the reloader's lifetime and over two reloaders, independent of the Lean model: an
+    acquire hands out a NEW generation iff a request was made on THAT reloader (through any handle, while it
+    lived) since its last acquire or its freshness callback says so (fast reload: the same generation);
+    requests on the other reloader or on a dead notifier cause nothing.  (What is_dead() answers is compared
+    with the model only: the property does not speak about it.)"""
+    fails = []
+    st = [dict(alive=True, pending=False, fast=False, cb=False, gen=0), dict(alive=True, pending=False, fast=False, cb=False, gen=0)]
+    res = iter(obs.split(","))
+    for o in ops.split(","):
+        k, op = (1, o[1:]) if o.startswith("2") else (0, o)
+        x = st[k]
+        if op == "A":
+            got = next(res, "?")
+            if not x["alive"]:
+                continue
+            if x["gen"] == 0:
+                x["gen"] = 1
+            elif (x["pending"] or x["cb"]) and not x["fast"]:
+                x["gen"] += 1
+            x["pending"] = False
+            if got != f"g{x['gen']}":
+                fails.append((f"reloader {k + 1}: acquire handed out {got}, expected generation g{x['gen']} (requests on it since its last acquire decide, nothing else)", "life:wrong-generation"))
+                if got.startswith("g") and got[1:].isdigit():
+                    x["gen"] = int(got[1:])
+        elif op in ("R", "K"):
+            if x["alive"]:
+                x["pending"] = True
+        elif op in ("F0", "F1"):
+            if x["alive"]:
+                x["fast"] = op == "F1"
+        elif op in ("B0", "B1"):
+            if x["alive"]:
+                x["cb"] = op == "B1"
+        elif op == "D":
+            x["alive"] = False
+        elif op in ("Q", "q"):
+            next(res, "?")      # is_dead(): not part of the property's statement; compared with the model only
+    for k in (0, 1):
+        got = next(res, "?")
+        if got.startswith("C=") and int(got[2:].split("/")[0]) > st[k]["gen"]:
+            fails.append((f"reloader {k + 1}: {got}: more creator calls than generations handed out ({st[k]['gen']})", "life:spurious-create"))
+    return fails
+
+
+def run_life(r, exe):
+    rc, out, err = r.harness(exe, ["life", r.tier])
+    if rc != 0 or not out.strip():
+        r.broken.append(f"harness c20 life exited {rc}: {err[-300:]}")
+        return
+    real = [(f[1], f[2]) for f in (line.split("\t") for line in out.splitlines()) if len(f) == 3 and f[0] == "life"]
+    model = r.driver("drive_c20", "".join(f"life {ops}\n" for ops, _ in real))
+    pred = {}
+    for line in model or []:
+        f = line.split("\t")
+        if len(f) == 3 and f[0] == "life":
+            pred[f[1]] = f[2]
+    for ops, obs in real:
+        case = "life " + ops
+        toks = ops.split(",")
+        r.count(case, "D" in toks or "2D" in toks or any(t.startswith("2") for t in toks))
+        r.hist["life"]["with-drop" if ("D" in toks or "2D" in toks) else "no-drop"] += 1
+        if ops not in pred:
+            r.broken.append(f"no model prediction for {case}")
+        elif pred[ops] != obs:
+            r.model_disagreement(case, obs, pred[ops])
+        if obs.startswith("panic:"):
+            r.oracle_failure(case, "panic in the real code: " + obs, "life:panic")
+            continue
+        for what, site in life_oracle(ops, obs):
+            r.oracle_failure(case, what, site)
+    r.extra["life_sequences"] = len(real)
+
+
 def run(r):
     r.rule = ("schedules = sequences of scheduling decisions (which thread runs from its yield point to its next one) enumerated by the "
               "Lean model over its enabled threads: ALL schedules (or, above a cap, a seeded sample) for 1-2 acquires x 0-2 requests (plain, and with one special acquire = every "
               "combination of {freshness callback true} x {creator returns Err} x {creator script: none, request, two requests, switch fast on, switch fast on + request}, plus a PANICKING creator with/without callback and inner request), and for 3 acquires (one special, every position) x 0-1 requests with eager return; extra threads for the rest of the Notifier API: set_fast_reload(true/false) toggled between acquires with a request pending, set_callback(|| b) replacing the freshness callback, request_reload through the notifier clone the creator kept; the same small boxes with no callback registered at all (g0/g1); three acquirers with one failing creator and two requests; mutual-exclusion pokes at every yield point; sequential probes for dead notifiers, mutex blocking and contention on the notifier mutex, with fast "
               "reload off/on; quick adds a seeded sample over the 3x3 box, thorough adds ALL eager-return schedules of every 3x(0..3) "
               "configuration and a larger sample at full granularity.  A schedule is non-trivial when at least one request returned "
-              "before an acquire locked (an obligation of the property exists).")
+              "before an acquire locked (an obligation of the property exists).  Besides the schedules: op sequences on the template store behind fast reload "
+              "(directed product of name state x earlier use x loader answer x clear x lookup kind, plus seeded random sequences; non-trivial when a loader is set and a clear occurs) and "
+              "op sequences over the lifetime of two reloaders (every notifier entry point before / after the drop, on either reloader, plus seeded random ones; non-trivial when a drop or the second reloader occurs).")
     r.assumptions = ["between two hook points a thread's step is not interleaved with other threads' steps in a way the lock structure does not already serialise (each segment contains at most one critical section on shared data besides the held cached_env mutex)",
                      "symmetric threads (identical requesters / identically configured acquirers) are scheduled in index order; for the 3x3 box request_reload returns right after setting the flag (the return step touches no shared state)",
                      "std::sync::Mutex provides mutual exclusion"]
-    r.regen_tables(["RELOADER_ACCESSES"])
+    r.regen_tables(["RELOADER_ACCESSES", "C20_FS_EVENT_FILTER", "C20_WATCHER_DROP_COND", "C20_LOADER_STORE", "C20_HANDLE_SITES"])
     r.lean_prove("MJ.Props.C20", "MJ/Audit/C20.lean", extra_targets=["drive_c20"])
     exe = r.cargo_build("c20")
     if exe is None:
@@ -484,6 +649,8 @@ def run(r):
             r.oracle_failure(case, what, site)
         if n_all % 3001 == 1:
             r.sample({"case": case, "real": obs, "model": pred, "obligations": obligations})
+    run_store(r, exe)
+    run_life(r, exe)
     # ---- mutual exclusion at every yield point of acquire_env: a second acquirer that the model says is
     #      blocked is released from BeforeLock and must not get anywhere while the holder stands still
     pokes = choose_pokes(model)
@@ -536,6 +703,26 @@ def replay(r, path):
     cases += [x["case"] for x in d.get("correspondence_disagreements", [])]
     for case in cases:
         if not case:
+            continue
+        if case.startswith("life "):
+            ops = case.split(" ", 1)[1]
+            rc, out, err = r.harness(exe, ["life", "one", ops])
+            obs = out.strip().split("\t")[-1]
+            model = r.driver("drive_c20", f"life {ops}\n")
+            print("real :", obs)
+            print("model:", model[0].split("\t")[-1] if model else None)
+            for what, site in life_oracle(ops, obs):
+                print("oracle:", site, "-", what)
+            continue
+        if case.startswith("store "):
+            ops = case.split(" ", 1)[1]
+            rc, out, err = r.harness(exe, ["store", "one", ops])
+            obs = out.strip().split("\t")[-1]
+            model = r.driver("drive_c20", f"store {ops}\n")
+            print("real :", obs)
+            print("model:", model[0].split("\t")[-1] if model else None)
+            for what in store_oracle(ops, obs):
+                print("oracle: fast-reload:clear:stale-lookup -", what)
             continue
         if case.startswith("probe"):
             rc, out, err = r.harness(exe, ["probe"])
